@@ -367,6 +367,9 @@ def run(ctx):
     r19_3_set(ctx)
     r19_5_signature_types(ctx)
     r19_4_spec_equality(ctx)
+    from rules import c07 as _c07
+
+    _c07.r19_6_index_tuple_output_type(ctx)
     return (
         "Finite abstract evaluation of type_spec_is_assignable_to over every ordered pair of a bounded universe of nested ARC-4 shapes (class membership from the repository's "
         "own hierarchy) against ARC-4 layout classes; documented table; callers check the relation in the right direction before passing storage. Equality of encodings of "
